@@ -64,14 +64,15 @@ theorem digit_rat {side p : ℚ} {i : ℤ} (hs : 0 < side) (i0 : 0 ≤ i) (h1 : 
   exact ⟨hq0, hq1⟩
 
 /-- the mid-point trick, one direction: if `x` lies strictly inside the (unwrapped) cell `m`, then
-`x % L` lies in the box and `int((x % L) / side) = m mod n`. -/
-theorem digit_pymod {side x : ℚ} {n m : ℤ} (hs : 0 < side) (hn : 1 ≤ n)
+the corrected entry `w = correct_position_entry(x)` (`JF.pywrap`; `x % L` in this exact reading) lies in the box and
+`int(w / side) = m mod n`. -/
+theorem digit_pywrap {side x : ℚ} {n m : ℤ} (hs : 0 < side) (hn : 1 ≤ n)
     (h1 : m * side < x) (h2 : x < (m + 1) * side) :
-    0 ≤ pymod Ops.rat x (n * side) ∧ pymod Ops.rat x (n * side) ≤ n * side ∧
-      digit Ops.rat side (pymod Ops.rat x (n * side)) = m % n := by
+    0 ≤ pywrap Ops.rat x (n * side) ∧ pywrap Ops.rat x (n * side) ≤ n * side ∧
+      digit Ops.rat side (pywrap Ops.rat x (n * side)) = m % n := by
   have hnq : (1 : ℚ) ≤ n := by exact_mod_cast hn
   have hL : 0 < (n : ℚ) * side := by positivity
-  rw [pymod_rat x _ hL]
+  rw [pywrap_rat_pos x _ hL]
   have hmd : (m : ℤ) = n * (m / n) + m % n := (Int.mul_ediv_add_emod m n).symm
   have hr0 : 0 ≤ m % n := Int.emod_nonneg m (by omega)
   have hr1 : m % n < n := Int.emod_lt_of_pos m (by omega)
@@ -221,11 +222,11 @@ theorem midEntry_digit {sd lo hi rlo : ℚ} {n i j : ℤ} (sign : Bool) (hs : 0 
   obtain ⟨c1, c2⟩ := abs_le.mp h3
   cases sign
   · simp only [midEntry, rat_ofInt, Bool.false_eq_true, if_false]
-    have := digit_pymod (side := sd) (x := (hi + lo) / ((2 : ℤ) : ℚ) - rlo) (n := n) (m := i - j) hs hn
+    have := digit_pywrap (side := sd) (x := (hi + lo) / ((2 : ℤ) : ℚ) - rlo) (n := n) (m := i - j) hs hn
       (by push_cast; linarith) (by push_cast; linarith)
     exact this
   · simp only [midEntry, rat_ofInt, if_true]
-    have := digit_pymod (side := sd) (x := (hi + lo) / ((2 : ℤ) : ℚ) + rlo) (n := n) (m := i + j) hs hn
+    have := digit_pywrap (side := sd) (x := (hi + lo) / ((2 : ℤ) : ℚ) + rlo) (n := n) (m := i + j) hs hn
       (by push_cast; linarith) (by push_cast; linarith)
     exact this
 
